@@ -253,11 +253,12 @@ def make_ast(rng, net, notations=None):
                       "items": [_render_item(rng, it) for it in items]})
     pidx = list(range(len(probs)))
     rng.shuffle(pidx)
-    if rng.random() < 0.5:
-        order = [["var", i] for i in range(len(vars_))] + [["prob", j] for j in pidx]
-    else:
-        order = [["var", i] for i in range(len(vars_))] + [["prob", j] for j in pidx]
-        rng.shuffle(order)
+    # variable blocks keep their relative order (it is the declaration order = variable index);
+    # probability blocks are shuffled and interleaved anywhere
+    order = [["var", i] for i in range(len(vars_))]
+    for j in pidx:
+        pos = len(order) if rng.random() < 0.5 else rng.randrange(len(order) + 1)
+        order.insert(pos, ["prob", j])
     for vv in vars_:
         if rng.random() < 0.2:
             vv["props"].append("position = (10, 20)")
@@ -518,7 +519,6 @@ def _apply(rng, kind, ast, net, info):
         # case for it (assert False) -- the file is refused although it is well-formed BIF
         pb = rng.choice(probs)
         pb["items"].insert(rng.randrange(len(pb["items"]) + 1), ["property", "note some text, with commas"])
-        info["expect_accept"] = False
         info["well_formed_bif"] = True
         return True
     if kind.startswith("text_"):
